@@ -544,7 +544,12 @@ def rule_siblings(env, shared):
             if x[0] == "fnref":
                 return ("fnref", x[1].split("<")[0].replace(adt, "X"))
             return None
-        return fmt(r_m1.rewrite(m.canon(t), f)).replace(adt, "X").replace(r["name"], "X")
+        def g(x):
+            # the order of the alternatives of a phi is an artefact of the control-flow layout (if/else vs match)
+            if x[0] == "phi":
+                return ("phi", tuple(sorted(x[1], key=lambda y: fmt(y))))
+            return None
+        return fmt(r_m1.rewrite(r_m1.rewrite(m.canon(t), f), g)).replace(adt, "X").replace(r["name"], "X")
 
     groups = {}
     known = [a for a, r in R.impl.items() if r["kind"] == "known"]
